@@ -71,6 +71,10 @@ add("C15", "runtime monitoring: boundary monitors on every comparison / de-dupli
     "Pairs (c, perturbed c) - swapped control/target, gate moved to another same-type register or across a neighbour, wrapped/unwrapped, identities, registers exchanged, classical-control direction flipped, replaced gates, independent circuits - go through compare with methods direct, is_isomorphic and (small circuits) GED; every 'equal' answer is checked against the oracle, plus reflexivity on copies, symmetry and insensitivity to wrapping/identities; remove_redundant_circuits and CircuitStorage must only drop circuits that are equivalent to one they keep.",
     TRUST + "Equivalence is decided on three probe inputs (can hide, never fake, a violation).", "DESIGN.md section 5, C15")
 
+add("C02", "runtime monitoring: boundary monitor on TimeReversedSolver.solve; the returned circuit is judged by enumerating ALL measurement-outcome branches with the independent reference semantics and by lock-step monitored compiles on both backends; tableau and DAG monitors run inside solve()",
+    "Targets: every labelled graph on <=4 (thorough <=5) vertices, random / tree / cycle / complete / repeater / lattice / disjoint-union graphs up to 14 vertices in permuted orders, presented as graph, stabilizer (random generating set) and density-matrix QuantumState. For each returned circuit: validate(), DAG invariants, every outcome branch must end in |G><G| (x) |0..0>_emitters exactly (dense up to 7 qubits, stabilizer groups above), both real compilers are followed step by step under forced 0 / forced 1 / probabilistic outcomes, and the reported score must be the true infidelity 0.",
+    TRUST + "Known finding trs-isolated-vertex (IndexError for targets with an isolated vertex) is reported, not hidden.", "DESIGN.md section 5, C02")
+
 NOT_YET = {
 }
 
